@@ -68,7 +68,7 @@ func newBWorld(r *rng.R) *bWorld {
 	w.tpKeys[bLocs[1]] = macaroon.NewEncryptionKey()
 	w.tpKeys[bLocs[2]] = macaroon.NewEncryptionKey()
 	one, two := uint64(1), uint64(2)
-	w.reqs = []*flyio.Access{{OrgID: &one, Action: resset.ActionRead}, {OrgID: &one, Action: resset.ActionWrite}, {OrgID: &two, Action: resset.ActionRead}}
+	w.reqs = []*flyio.Access{{OrgID: &one, Action: resset.ActionRead}, {OrgID: &one, Action: resset.ActionWrite}, {OrgID: &two, Action: resset.ActionRead}, {OrgID: &one, Action: resset.ActionNone}}
 	rd := resset.ActionRead
 	w.cavLists = [][]macaroon.Caveat{
 		{&rd},
@@ -260,6 +260,37 @@ func predOf(p string, loc uint64) (bundle.Filter, string) {
 		return bundle.IsNonMacaroon, p
 	}
 	return bundle.LocationFilter(bLocs[loc]), coqw.App("PLoc", coqw.N(loc)) // a non-Predicate Filter (exercises Count's other branch)
+}
+
+// randFilt: a Filter of the bundle API and its model term
+func (w *bWorld) randFilt(r *rng.R, b *bundle.Bundle, depth int) (bundle.Filter, string) {
+	k := r.Intn(4)
+	if depth <= 0 && k == 3 {
+		k = r.Intn(3)
+	}
+	switch k {
+	case 0:
+		p, pc := predOf(rng.Pick(r, []string{"PAll", "PNone", "PPerm", "PNotPerm", "PWellFormed", "PVerified", "PNonMac", "PLoc"}), uint64(r.Intn(4)))
+		return p, coqw.App("FPred", pc)
+	case 1:
+		tp := uint64(1 + r.Intn(2))
+		return b.IsMissingDischarge(bLocs[tp]), coqw.App("FMissing", coqw.N(tp))
+	case 2:
+		var rqs []uint64
+		var accs []macaroon.Access
+		for n := 1 + r.Intn(2); n > 0; n-- {
+			q := uint64(r.Intn(len(w.reqs)))
+			rqs = append(rqs, q)
+			accs = append(accs, w.reqs[q])
+		}
+		if len(rqs) == 1 && rqs[0] == 3 && r.Bool() {
+			// flyio.IsForOrg(o) is AllowsAccess for the org-level request without an action (request 3)
+			return flyio.IsForOrg(1), coqw.App("FAllows", coqw.ListOf(rqs, coqw.N))
+		}
+		return bundle.AllowsAccess(accs...), coqw.App("FAllows", coqw.ListOf(rqs, coqw.N))
+	}
+	f, fc := w.randFilt(r, b, depth-1)
+	return b.WithDischarges(f), coqw.App("FWithDis", fc)
 }
 
 func zl(ids []uint64) []int64 {
@@ -679,11 +710,41 @@ func genBundle(c *ctx, cached bool) {
 		for k := 0; k < steps; k++ {
 			s := uint64(r.Intn(int(nslots)))
 			b := w.slots[s]
-			x := r.Intn(14)
-			if cached && x > 9 {
+			x := r.Intn(17)
+			if cached && x > 9 && x < 14 {
 				x = 3
 			}
 			switch x {
+			case 14:
+				// filters that are not predicates: missing discharges, the tokens a request is allowed by, "... and their discharges"
+				f, fc := w.randFilt(r, b, 2)
+				switch r.Intn(3) {
+				case 0:
+					d := newSlot()
+					w.slots[d] = b.Select(f)
+					rec(coqw.App("BSelectF", coqw.N(d), coqw.N(s), fc), nil)
+					rec(coqw.App("BHeader", coqw.N(d)), w.headerObs(w.slots[d]))
+					nslots-- // derived bundles share token objects with their parent: scenarios only read them
+					delete(w.slots, d)
+				case 1:
+					b.Filter(f)
+					rec(coqw.App("BFilterF", coqw.N(s), fc), nil)
+				default:
+					rec(coqw.App("BCountF", coqw.N(s), fc), []int64{int64(b.Count(f)), b2i64x(b.Any(f))})
+				}
+			case 15:
+				if r.Bool() {
+					rec(coqw.App("BIsEmpty", coqw.N(s)), []int64{b2i64x(b.IsEmpty())})
+				} else {
+					rec(coqw.App("BError", coqw.N(s)), []int64{b2i64x(b.Error() != nil)})
+				}
+			case 16:
+				if cached {
+					w.caches[0].Purge()
+					rec(coqw.App("CPurge", coqw.N(0)), nil)
+				} else {
+					rec(coqw.App("BIsEmpty", coqw.N(s)), []int64{b2i64x(b.IsEmpty())})
+				}
 			case 0:
 				parse()
 			case 1:
